@@ -15,6 +15,8 @@ import (
 var (
 	ErrClosed     = errors.New("the segment file is closed")
 	ErrInvalidCRC = errors.New("invalid crc value, log record maybe corrupted")
+	// ErrIncompleteTail 文件末尾的记录不完整, 通常由进程或系统在写入中途崩溃导致
+	ErrIncompleteTail = errors.New("incomplete log record at the end of the file")
 )
 
 type FileID = uint32
@@ -388,17 +390,29 @@ func (reader *DataReader) next() ([]byte, *DataPos, error) {
 		Offset:  reader.offset,
 	}
 
+	// 文件在一条记录的中途结束: 读取位置回到该记录的起点, 由调用方决定是否截断
+	incomplete := func() ([]byte, *DataPos, error) {
+		reader.blockID, reader.offset = pos.BlockID, pos.Offset
+		return nil, nil, ErrIncompleteTail
+	}
+
 	for {
 		// 当前 block 绝对偏移量
 		off := int64(reader.blockID) * blockSize
 		// 文件恰好在 block 末尾不足 chunk 头部的位置结束时, 下一个 block 并不存在
 		if off >= fileSize {
+			if cnt > 0 {
+				return incomplete()
+			}
 			return nil, nil, io.EOF
 		}
 		// 当前 block 实际大小
 		size := uint32(min(fileSize-off, blockSize))
 
 		if reader.offset >= size {
+			if cnt > 0 {
+				return incomplete()
+			}
 			return nil, nil, io.EOF
 		}
 
@@ -406,6 +420,17 @@ func (reader *DataReader) next() ([]byte, *DataPos, error) {
 		_, err := reader.dataFile.ReadWriter.Read(reader.blockBuf[0:size], off)
 		if err != nil {
 			return nil, nil, err
+		}
+
+		// chunk 头部或数据超出文件末尾, 说明该 chunk 未写入完整
+		if size < blockSize {
+			if reader.offset+chunkHeaderSize > size {
+				return incomplete()
+			}
+			length := uint32(binary.LittleEndian.Uint16(reader.blockBuf[reader.offset+4 : reader.offset+6]))
+			if end := reader.offset + chunkHeaderSize + length; end > size && end <= blockSize {
+				return incomplete()
+			}
 		}
 
 		// 对当前 chunk 解码
@@ -432,6 +457,23 @@ func (reader *DataReader) next() ([]byte, *DataPos, error) {
 	pos.Size = cnt*chunkHeaderSize + uint32(len(res))
 
 	return res, pos, nil
+}
+
+// Position 返回下一条待读取记录的起始位置
+func (reader *DataReader) Position() (uint32, uint32) {
+	return reader.blockID, reader.offset
+}
+
+// TruncateTo 丢弃指定位置之后的全部数据, 后续写入从该位置继续
+func (df *DataFile) TruncateTo(blockID uint32, offset uint32) error {
+	if df.closed {
+		return ErrClosed
+	}
+	if err := df.ReadWriter.Truncate(int64(blockID)*blockSize + int64(offset)); err != nil {
+		return err
+	}
+	df.lastBlockID, df.lastBlockSize = blockID, offset
+	return nil
 }
 
 func (df *DataFile) Size() int64 {
